@@ -110,6 +110,15 @@ impl Optimizer {
     }
 }
 
+/// Verification hook (see /verif): the analysis (catalog, statistics, configuration) this
+/// optimizer runs its e-graphs with.
+#[cfg(risinglight_verif)]
+impl Optimizer {
+    pub fn verif_analysis(&self) -> ExprAnalysis {
+        self.analysis.clone()
+    }
+}
+
 /// Stage1 rules in the optimizer.
 /// - pushdown apply and turn into join
 static STAGE1_RULES: LazyLock<Vec<Rewrite>> = LazyLock::new(|| {
